@@ -247,7 +247,10 @@ def ser_case(srv, part, rng, tier):
     # remaining occurrences with durations
     r0 = r_occ.get(0, [])
     part.count("occurrences_compared", min(len(a0), len(r0)))
-    if a0 != r0:
+    if a0 != r0 and sorted(a0) == sorted(r0):
+        # the same occurrences in another order: the order of a stream is C16's business, not the serialiser's
+        part.count("same_occurrences_in_other_order")
+    elif a0 != r0:
         # find the first difference
         i = 0
         while i < min(len(a0), len(r0)) and a0[i] == r0[i]:
@@ -256,6 +259,10 @@ def ser_case(srv, part, rng, tier):
         er = r0[i] if i < len(r0) else "(none)"
         same_start = ea.split()[0] == er.split()[0]
         kind = "duration" if same_start else "occurrences"
+        # a written task that starts before the first occurrence still owed replays what has been consumed already:
+        # a failure of its own, not to be confused with the (listed) re-anchoring defects, which only ever move later
+        if kind == "occurrences" and r0 and a0 and r0[0] != "-" and a0[0] != "-" and r0[0].split()[0] < a0[0].split()[0]:
+            kind = "occurrences-replayed"
         part.violation("ser/%s/%s/%s" % (fkey, kcls, kind),
                        dict(wit, original=a0[:8], reparsed=r0[:8],
                             summary="after %d pops the written task's %s differ at position %d: original %s, read back %s | rules: %s"
